@@ -23,7 +23,7 @@ CHECKS = {
             'All pairs of tables (0..3 x 0..2 rows quick, 0..3 x 0..3 and 4-row sides thorough) over an 8-value key domain incl. two NaN objects of different identity, 1..3 key columns, every '
             'lcols/rcols spelling and mode: join must be the multiset of matching row pairs, xor the anti-join, both partition x, operands untouched. Every call runs under a sys.settrace '
             'monitor: an exact repeat of (while-header, l, r, len(res)) is a proven non-terminating lasso; a fuel bound on line events backs it up.',
-            'Key equality as the statement defines it; bool/inf keys, output row order and columns of an empty join are not checked. ' + TRUST, 'DESIGN.md section 4, C02'),
+            'Key equality as the statement defines it; bool keys, output row order and columns of an empty join are not checked. ' + TRUST, 'DESIGN.md section 4, C02'),
     'C03': ('E2', 'bounded exhaustive enumeration of index-subset tuples x NaN patterns x containers x policies against a dict-of-days as-of alignment model',
             'Every pair/triple of Series over every index subset of a 4/5-day timeline x NaN patterns, nested list/dict containers with non-timeseries members, 2-column frames with '
             'column policies, and all tuples of bare numpy arrays of length 0..4/5, through df_index, df_reindex, df_sync and presync spellings, for ij/oj/lj/rj/explicit index and '
@@ -85,17 +85,17 @@ CHECKS = {
             'Every prefix-free tree with <=3/4 leaves over 2-3 keys: flatten/rebuild round trip, keys/values order, getitem spellings; ALL pairs (t, u) x ignore lists through tree_update, Dict + dict, '
             'items_to_tree, table_to_tree against a recursive merge model, with deep snapshots (identity and content of every nested branch) of both operands; chains of updates with every '
             'intermediate result kept and re-inspected; table<->tree inverse on patterns with 1..4 wildcards.',
-            'Empty branches, non-string keys and result branch types are excluded. ' + TRUST, 'DESIGN.md section 4, C15'),
+            'Empty branches in u, non-string keys and result branch types are excluded. ' + TRUST, 'DESIGN.md section 4, C15'),
     'C16': ('E2', 'bounded exhaustive enumeration of lists, mappings x key selections, and every dependency digraph x every keyword order',
             'All lists <=4/5 over 4 elements as ulist operands (ordered set algebra, type, no duplicates, operands untouched); every mapping over <=3/4 keys in every insertion order for dictattr, Dict '
             'and a subclass x every key selection for -, &, [], +, relabel, attribute access; Dict.__call__ on EVERY digraph on <=4 derived keys (2^12) x every keyword order, structured families on 5-6 '
             'keys: topological result for acyclic graphs, ValueError for every cyclic one, termination by a line-event fuel counter.',
-            'Self-referencing definitions, tuple keys and clashing relabels are excluded. ' + TRUST, 'DESIGN.md section 4, C16'),
+            'Self-referencing definitions and clashing relabels are excluded. ' + TRUST, 'DESIGN.md section 4, C16'),
     'C17': ('E1', 'explicit-state BFS over publication histories on real bitemporal stores against a spec-level publication-list model, with a differential no-leak oracle',
             'Breadth-first search over histories of bi_merge publications (15 partial versions over 2 dates x 3 non-decreasing stamps, depth 2/3; single-date histories depth 3/4; list-form merges): '
             'from every reached store all 16 reads (8 read times x what in {-1,0}) are compared with the model, the as-of-T read must equal the read on the store built from the publications stamped '
             '<= T only (no look-ahead leak), re-merging a current version changes no read, merge inputs are untouched.',
-            'Decreasing stamps, multi-column frames and per-date groups above 16 rows are excluded. ' + TRUST, 'DESIGN.md section 4, C17'),
+            'Decreasing stamps and multi-column frames are excluded. ' + TRUST, 'DESIGN.md section 4, C17'),
     'C18': ('E2+E1', 'exhaustive enumeration of signatures x valid calls x decorator stacks against direct calls and inspect; BFS over cache call histories against a call-counting model',
             'All 60 signatures (0..4 positional parameters x trailing defaults x +-*args x +-**kwargs) x every valid call (inspect.signature.bind) x 10 decorators x every stack of <=2/3: same result, '
             'same argument specification, wrapping twice equals wrapping once (directly and through a chain), getcallargs == inspect.getcallargs, call_with_callargs round trip, try_* fallbacks on a '
@@ -112,6 +112,33 @@ CHECKS = {
             '{no row, past, future, None}; two key columns in both orders of `on`: surviving keys = inner join (outer for defaulted inputs), sorted by key, value = f on that key\'s values, f '
             'evaluated exactly once per recomputed key and never for kept or dropped keys; join() directly.',
             'The value returned when no key survives and data combined with only-defaulted inputs are excluded. ' + TRUST, 'DESIGN.md section 4, C20'),
+}
+
+# what the seeded-change rounds added to each check after the level text above was written (DESIGN.md section 10.4 / 10.5)
+EXTRA = {
+    'C01': 'Also: records with permuted key order, zero-row columns next to scalars, negative / numpy / range integer lists, do() with functions reading other columns, rename swaps.',
+    'C02': 'Also: string keys of different lengths, +-inf keys, a table joined / xor-ed with itself on two columns, the same table objects joined again after an in-place key edit, '
+           'key columns stored in another order, two shared columns; thorough adds 4x4 tables over a 4-value key domain.',
+    'C03': "Also: series sharing ONE index object, container dicts with a key called 'index', presync with join / method given at call time and series passed by keyword.",
+    'C04': 'Also: year-first month-name strings, ymd of every spelling with the us dialect, ISO T strings with 1 / 3 / 5 fractional digits.',
+    'C05': 'Also: add / bdays / dt_bump with an explicitly passed adj that differs from the calendar\'s own.',
+    'C06': 'Also: 1-tuples, truthy / falsy non-bool predicate answers, keyword-only predicate parameters and functools.partial, the caller\'s filter dict compared after the call.',
+    'C07': 'Also: dicts in different insertion orders, bool-vs-number sequences, np.float32 / np.float16 NaN, key functions returning lists / tuples, value orders spelt against the column order.',
+    'C08': 'Also: sub_/div_ list forms, one list object passed twice, frames storing their columns in another order, scalars at interior list positions, indexes that carry a freq.',
+    'C09': 'Also: the parts of a compound tenor handed over as ONE list object, twice (the list must stay what it was).',
+    'C10': 'Also: microsecond starts, end points +-3 microseconds around grid points, end points relative to the start, millisecond bumps, the caller emptying a returned list.',
+    'C11': 'Also: a key column whose name contains every y label, NaN and +-inf pivot keys, the SAME table regrouped after an in-place key edit.',
+    'C12': 'Also: +-inf cells, repeated methods and the tuple spelling, 10 lists mixing fnna / nona / ffill_na / ffill_0 with the fills, a Series with a duplicated first timestamp.',
+    'C13': 'Also: a sub-second time-of-day grid, bound lists with an open end, suite spellings (a date bound written as ISO / yyyymmdd string, date, np.datetime64, Timestamp, yyyymmdd int over a '
+           'half-day grid), the tuple spelling for time-of-day windows.',
+    'C14': 'Also: dicts with different key sets holding None / falsy values, zero-dimension frames, RangeIndex slices, None-vs-NaN in object arrays, overlapping views of one buffer.',
+    'C15': 'Also: t-trees whose equal branches are ONE shared object; suite edge_trees: keys containing a dot and t-trees holding empty branches.',
+    'C16': "Also: underscore keys as attributes, ulists of tuples, relabel with a caller-owned dict, a member / a definition literally called 'key'.",
+    'C17': 'Also: stores of more than 16 rows with sub-millisecond stamps (suite wide), versions stamped by bi_merge through asof / existing_data (plainform), one-column frames (frameform).',
+    'C18': 'Also: undeclared keywords spelt like the star parameters, try_list fallbacks after the caller mutated one, cached None results, suite try_exceptions (14 exception payloads x '
+           'verbose x repeat x failures before success).',
+    'C19': 'Also: companion dicts with partly the same keys, unsorted insertion orders, awaitables that are objects with __await__, lazy coroutines that only complete once started, range / dict-view companions.',
+    'C20': "Also: scrambled data / expiry tables, value columns called 'val', one table object for two inputs, one lifted function serving several calls (defaults survive).",
 }
 
 NOT_READY = set([])
@@ -133,7 +160,7 @@ def main():
             evidence_file='/verif/evidence/%s.json' % pid,
             replay_cmd_template='./check %s --replay {path}' % pid,
             engine=eng,
-            level_claimed=dict(category='model_checking', text=text, design_ref=ref),
+            level_claimed=dict(category='model_checking', text=text + (' ' + EXTRA[pid] if pid in EXTRA else ''), design_ref=ref),
             level_note=note,
             technique=tech,
         ))
